@@ -107,6 +107,9 @@ def run_case(case, ctx):
             return
         m = r.value
         try:
+            if case['seed'][-1] % 2:
+                from gen.poke import poke
+                poke(m, ctx)
             T = spec.templates
             nt, nsw, nc = T.shape
             if not curated:
